@@ -50,11 +50,17 @@ def _stage_funcs(ctx: Ctx) -> List[Func]:
     out = [up]
     seen = set()
     for n in own_nodes(up.node):
-        if isinstance(n, ast.Call) and isinstance(n.func, ast.Attribute) and isinstance(n.func.value, ast.Name):
-            m = up.cls.lookup_method(n.func.attr) if up.cls else None
-            if m is None or m is up or m.cls is None or m.module is not up.module:
+        if isinstance(n, ast.Call) and (isinstance(n.func, ast.Attribute) and isinstance(n.func.value, ast.Name) or isinstance(n.func, ast.Name)):
+            if isinstance(n.func, ast.Name):
+                # a function defined inside ungroup_ports: ungroup(ace, "srcport")
+                m = next((h_ for h_ in ctx.prog.funcs if h_.parent is up and h_.name == n.func.id), None)
+                bound = False
+            else:
+                m = up.cls.lookup_method(n.func.attr) if up.cls else None
+                bound = True
+            if m is None or m is up or m.module is not up.module:
                 continue
-            binding = bind_call(m, n, bound=True)
+            binding = bind_call(m, n, bound=bound)
             if binding is None:
                 continue
             consts = {k: v.value for k, v in binding.items() if isinstance(v, ast.Constant) and isinstance(v.value, str)}
@@ -89,7 +95,9 @@ def _split_sites(f: Func) -> List[Tuple[ast.Compare, str, List[str], bool]]:
 def r19_1(ctx: Ctx, rep: Report) -> None:
     rep.rule("R19.1")
     up = ctx.func("Ace.ungroup_ports")
-    fwd = ctx.func("Port._items_to_ports")
+    from .normalise import normalised as _norm
+
+    fwd = _norm(ctx, ctx.func("Port._items_to_ports"), "unroll,beta")
     operators = list(ctx.folder.const("helpers", "OPERATORS"))
     fpaths = op_paths(ctx, fwd, operators)
     kind: Dict[str, str] = {}
@@ -125,12 +133,23 @@ def r19_1(ctx: Ctx, rep: Report) -> None:
                 )
 
 
-def _stage_call(e: ast.AST, up: Func) -> Optional[Tuple[str, str]]:
-    """`<recv>.<helper>("srcport")` -> (recv, 'src'|'dst')."""
-    if isinstance(e, ast.Call) and isinstance(e.func, ast.Attribute) and isinstance(e.func.value, ast.Name):
-        lits = [a.value for a in list(e.args) + [k.value for k in e.keywords] if isinstance(a, ast.Constant) and isinstance(a.value, str)]
-        if len(lits) == 1 and ("src" in lits[0] or "dst" in lits[0]) and up.cls is not None and up.cls.lookup_method(e.func.attr) is not None:
-            return e.func.value.id, ("src" if "src" in lits[0] else "dst")
+def _stage_call(e: ast.AST, up: Func, env: Optional[Dict[str, ast.AST]] = None) -> Optional[Tuple[str, str]]:
+    """`<recv>.<helper>("srcport")` or `<local helper>(<recv>, "srcport")` -> (recv, 'src'|'dst').
+    A local bound once to such a call (`_aces = ungroup(self, "srcport")`) stands for the call."""
+    if isinstance(e, ast.Name) and env and e.id in env:
+        e = env[e.id]
+    if not isinstance(e, ast.Call):
+        return None
+    lits = [a.value for a in list(e.args) + [k.value for k in e.keywords] if isinstance(a, ast.Constant) and isinstance(a.value, str)]
+    if not (len(lits) == 1 and ("src" in lits[0] or "dst" in lits[0])):
+        return None
+    side = "src" if "src" in lits[0] else "dst"
+    if isinstance(e.func, ast.Attribute) and isinstance(e.func.value, ast.Name) and up.cls is not None and up.cls.lookup_method(e.func.attr) is not None:
+        return e.func.value.id, side
+    if isinstance(e.func, ast.Name):
+        names = [a.id for a in e.args if isinstance(a, ast.Name)]
+        if len(names) == 1:
+            return names[0], side
     return None
 
 
@@ -246,26 +265,27 @@ def r19_2(ctx: Ctx, rep: Report, rid: str = "R19.2") -> None:  # noqa: C901
     elif dst_stage and src_stage:
         # extracted stages: [d for s in self.H("srcport") for d in s.H("dstport")]  (or the same as nested loops)
         ok = False
+        uenv = _single_env(up.node)
         for n in own_nodes(up.node):
             if isinstance(n, (ast.ListComp, ast.GeneratorExp)) and len(n.generators) == 2 and not n.generators[0].ifs and not n.generators[1].ifs:
                 g0, g1 = n.generators
-                c0, c1 = _stage_call(g0.iter, up), _stage_call(g1.iter, up)
+                c0, c1 = _stage_call(g0.iter, up, uenv), _stage_call(g1.iter, up, uenv)
                 if c0 and c1 and c0[0] == "self" and isinstance(g0.target, ast.Name) and c1[0] == g0.target.id and {c0[1], c1[1]} == {"src", "dst"} and isinstance(g1.target, ast.Name) and src(n.elt) == g1.target.id:
                     ok = True
                     rep.ok("Ace.ungroup_ports: stages", f"{snippet(n, 90)}: the second stage runs for every entry of the first: full cross product", where=where(up, n))
             if isinstance(n, ast.For) and isinstance(n.target, ast.Name):
-                c0 = _stage_call(n.iter, up)
+                c0 = _stage_call(n.iter, up, uenv)
                 if c0 and c0[0] == "self":
                     for m in ast.walk(n):
                         if m is n:
                             continue
                         if isinstance(m, ast.For) and isinstance(m.target, ast.Name):
-                            c1 = _stage_call(m.iter, up)
+                            c1 = _stage_call(m.iter, up, uenv)
                             if c1 and c1[0] == n.target.id and {c0[1], c1[1]} == {"src", "dst"} and any(kind_ == "append" for b in m.body for kind_, _c in element_placements(b, m.target.id)):
                                 ok = True
                                 rep.ok("Ace.ungroup_ports: stages", "nested loops over the extracted stages: full cross product", where=where(up, n))
                         if isinstance(m, ast.Call) and isinstance(m.func, ast.Attribute) and m.func.attr == "extend" and len(m.args) == 1:
-                            c1 = _stage_call(m.args[0], up)
+                            c1 = _stage_call(m.args[0], up, uenv)
                             if c1 and c1[0] == n.target.id and {c0[1], c1[1]} == {"src", "dst"}:
                                 ok = True
                                 rep.ok("Ace.ungroup_ports: stages", "loop over the first stage extending by the second stage of each entry: full cross product", where=where(up, n))
